@@ -28,8 +28,8 @@ package ircserver
 
 // allocated(x): x is an object that exists in the current heap (true of every reference a Go program can hold;
 // stated so that freshly allocated objects are known to differ from the ones the maps hold).
-//@ pred wfSessions(i *IRCServer) = i.sessions != nil && (forall id robust.Id :: id in i.sessions ==> i.sessions[id] != nil && allocated(i.sessions[id]) && i.sessions[id].Id == id && i.sessions[id].Channels != nil && allocated(i.sessions[id].Channels) && i.sessions[id].invitedTo != nil && allocated(i.sessions[id].invitedTo)) && (forall a robust.Id, b robust.Id :: a in i.sessions && b in i.sessions ==> i.sessions[a].Channels != i.sessions[b].invitedTo)
-//@ pred wfNicks(i *IRCServer) = i.nicks != nil && (forall n lcNick :: n in i.nicks ==> i.nicks[n] != nil && allocated(i.nicks[n]) && i.nicks[n].Id in i.sessions && i.sessions[i.nicks[n].Id] == i.nicks[n] && NickToLower(i.nicks[n].Nick) == n && !i.nicks[n].deleted)
+//@ pred wfSessions(i *IRCServer) = i.sessions != nil && (forall id robust.Id :: id in i.sessions ==> i.sessions[id] != nil && allocated(i.sessions[id]) && i.sessions[id].Id == id && i.sessions[id].Channels != nil && allocated(i.sessions[id].Channels) && i.sessions[id].invitedTo != nil && allocated(i.sessions[id].invitedTo)) && (forall a robust.Id, b robust.Id :: a in i.sessions && b in i.sessions ==> i.sessions[a].Channels != i.sessions[b].invitedTo && (a != b ==> i.sessions[a].Channels != i.sessions[b].Channels))
+//@ pred wfNicks(i *IRCServer) = i.nicks != nil && (forall n lcNick :: n in i.nicks ==> i.nicks[n] != nil && allocated(i.nicks[n]) && i.nicks[n].Id in i.sessions && i.sessions[i.nicks[n].Id] == i.nicks[n] && NickToLower(i.nicks[n].Nick) == n && i.nicks[n].Nick != "" && !i.nicks[n].deleted)
 // symmetric membership, one direction: a live session that lists a channel is listed by that channel
 // (the other direction is in wfChannels: every member is an owned nickname)
 //@ pred wfMember(i *IRCServer) = forall id robust.Id, ch lcChan :: id in i.sessions && !i.sessions[id].deleted && ch in i.sessions[id].Channels ==> i.sessions[id].Nick != "" && ch in i.channels && NickToLower(i.sessions[id].Nick) in i.channels[ch].nicks
@@ -43,6 +43,8 @@ package ircserver
 // sessions created through the API (Reply == 0) carry the random session secret (>= 8 bytes are used as captcha challenge)
 //@ pred wfAuth(i *IRCServer) = forall id robust.Id :: id in i.sessions && id.Reply == 0 ==> len(i.sessions[id].auth) >= 8
 // between entries no session is marked deleted (MaybeDeleteSession removes them at the end of every entry)
+// a logged-in session has a nickname
+//@ pred wfLogin(i *IRCServer) = forall id robust.Id :: id in i.sessions && i.sessions[id].loggedIn ==> i.sessions[id].Nick != ""
 //@ pred wfAlive(i *IRCServer) = forall id robust.Id :: id in i.sessions ==> !i.sessions[id].deleted
 //@ pred wfMid(i *IRCServer) = wfBase(i) && wfSessions(i) && wfNicks(i) && wfChannels(i) && wfMember(i) && wfOwner(i)
 
@@ -276,10 +278,16 @@ package ircserver
 // ProcessMessage is checked against the template.
 
 //@ func handler
-//@   requires state: wfMid(i) && s != nil && replyOK(reply) && msg != nil
+//@   requires base: wfBase(i) && s != nil && replyOK(reply) && msg != nil
+//@   requires sessions: wfSessions(i)
+//@   requires nicks: wfNicks(i)
+//@   requires channels: wfChannels(i)
+//@   requires member: wfMember(i)
+//@   requires owner: wfOwner(i)
 //@   requires session: s.Id in i.sessions && i.sessions[s.Id] == s && !s.deleted
-//@   requires auth: wfAuth(i)
+//@   requires auth: wfAuth(i) && wfLogin(i)
 //@   ensures auth: wfAuth(i)
+//@   ensures login: wfLogin(i)
 //@   ensures owner: wfOwner(i)
 //@   ensures base: wfBase(i)
 //@   ensures sessions: wfSessions(i)
@@ -290,9 +298,19 @@ package ircserver
 //@   ensures keeps: forall x robust.Id :: old(x in i.sessions) ==> x in i.sessions && i.sessions[x] == old(i.sessions[x])
 //@   modifies *
 
+// What ProcessMessage guarantees at the dispatch in addition to the template:
+// the acting session was created through the API.
+// Role/registration gate (checked at the dispatch for every registered name): handlers registered
+// under server_* run only for services links; all others never for services links and, except for
+// the pre-registration commands below, only for logged-in sessions.
+//@ func dispatch
+//@   requires api: s.Id.Reply == 0
+//@   opt prereg = NICK USER PASS QUIT SERVER
+
 //@ func IRCServer.ProcessMessage
-//@   requires state: wfMid(i) && wfAuth(i) && wfAlive(i) && msg != nil && msg.Session in i.sessions
+//@   requires state: wfMid(i) && wfAuth(i) && wfLogin(i) && wfAlive(i) && msg != nil && msg.Session in i.sessions && msg.Session.Reply == 0
 //@   ensures auth: wfAuth(i)
+//@   ensures login: wfLogin(i)
 //@   ensures base: wfBase(i)
 //@   ensures sessions: wfSessions(i)
 //@   ensures nicks: wfNicks(i)
@@ -346,10 +364,16 @@ package ircserver
 
 // login is attempted by NICK, USER and PASS, whichever completes the registration
 //@ func IRCServer.maybeLogin
-//@   requires state: wfMid(i) && s != nil && replyOK(reply) && msg != nil
+//@   requires base: wfBase(i) && s != nil && replyOK(reply) && msg != nil
+//@   requires sessions: wfSessions(i)
+//@   requires nicks: wfNicks(i)
+//@   requires channels: wfChannels(i)
+//@   requires member: wfMember(i)
+//@   requires owner: wfOwner(i)
 //@   requires session: s.Id in i.sessions && i.sessions[s.Id] == s && !s.deleted && s.Id.Reply == 0
-//@   requires auth: wfAuth(i)
+//@   requires auth: wfAuth(i) && wfLogin(i)
 //@   ensures auth: wfAuth(i)
+//@   ensures login: wfLogin(i)
 //@   ensures owner: wfOwner(i)
 //@   ensures base: wfBase(i)
 //@   ensures sessions: wfSessions(i)
@@ -370,3 +394,37 @@ package ircserver
 
 //@ func IRCServer.cmdOper
 //@   ensures stillalive: !s.deleted
+
+//@ func IRCServer.cmdUser
+//@   requires api: s.Id.Reply == 0
+//@ func IRCServer.cmdPass
+//@   requires api: s.Id.Reply == 0
+
+// NICK: the membership of every channel is renamed from the old to the new
+// lower-case nickname. While the loop runs, channels not yet visited still
+// list the old name (which is no longer owned), visited ones list the new one.
+//@ pred chanShape(i *IRCServer) = i.channels != nil && (forall ch lcChan :: ch in i.channels ==> i.channels[ch] != nil && allocated(i.channels[ch]) && i.channels[ch].nicks != nil && allocated(i.channels[ch].nicks) && ChanToLower(i.channels[ch].name) == ch) && (forall a lcChan, b lcChan :: a in i.channels && b in i.channels && a != b ==> i.channels[a].nicks != i.channels[b].nicks)
+//@ func IRCServer.cmdNick
+//@   requires api: s.Id.Reply == 0
+//@   loop range i.channels
+//@     invariant wfBase(i) && wfSessions(i) && wfAuth(i) && wfNicks(i) && wfOwner(i) && replyOK(reply) && chanShape(i)
+//@     invariant s.Id in i.sessions && i.sessions[s.Id] == s && !s.deleted && s.Nick == nick && oldNick != NickToLower(nick) && oldNick != "" && !(oldNick in i.nicks)
+//@     invariant forall x robust.Id :: old(x in i.sessions) ==> x in i.sessions && i.sessions[x] == old(i.sessions[x])
+//@     invariant members: forall ch lcChan, n lcNick :: ch in i.channels && n in i.channels[ch].nicks ==> i.channels[ch].nicks[n] != nil && allocated(i.channels[ch].nicks[n]) && (n in i.nicks || (n == oldNick && !seen(ch)))
+//@     invariant renamed: forall ch lcChan :: seen(ch) && ch in i.channels ==> !(oldNick in i.channels[ch].nicks)
+//@     invariant mine: forall ch lcChan :: ch in s.Channels ==> ch in i.channels && ((seen(ch) && NickToLower(nick) in i.channels[ch].nicks) || (!seen(ch) && oldNick in i.channels[ch].nicks))
+//@     invariant others: wfMemberExcept(i, s)
+
+//@ func IRCServer.cmdJoin
+//@   requires registered: s.loggedIn && !s.Server
+//@   requires api: s.Id.Reply == 0
+//@   loop range strings.Split(msg.Params[0], ",")
+//@     invariant wfMid(i) && wfAuth(i) && wfLogin(i) && replyOK(reply) && s.Id in i.sessions && i.sessions[s.Id] == s && !s.deleted && s.loggedIn
+//@     invariant forall x robust.Id :: old(x in i.sessions) ==> x in i.sessions && i.sessions[x] == old(i.sessions[x])
+
+//@ func IRCServer.cmdMode
+//@   ensures stillalive: !s.deleted && (old(s.loggedIn) ==> s.loggedIn)
+//@ func IRCServer.cmdTopic
+//@   ensures stillalive: !s.deleted && (old(s.loggedIn) ==> s.loggedIn)
+//@ func IRCServer.cmdNames
+//@   ensures stillalive: !s.deleted && (old(s.loggedIn) ==> s.loggedIn)
